@@ -289,6 +289,180 @@ class Runner {
     return r;
   }
 
+
+  // ---------------------------------------------------------------- fault mode (C05)
+  bool faults = false;              // allocation failures may occur: judge by the failure-shape oracle
+  bool op_reported = false;         // the current operation reported a failure (false / unbound / NoMemory)
+  bool op_has_channel = false;      // the current operation has a way to report
+  int op_doc = -1;                  // document whose allocator serves the current operation
+  std::vector<Step> op_hole;        // path (from the root of op_doc) of the value being modified
+  bool op_hole_whole = false;       // the whole document is the target
+  std::vector<Val> pre_roots;       // model before the operation
+  uint64_t refused_before = 0;
+  std::vector<bool> overflowed_before;
+  unsigned fault_outcomes_b = 0, fault_ops_with_refusal = 0, fault_nonempty_before = 0;
+
+  uint64_t refused_total() {
+    uint64_t r = 0;
+    for (auto& l : worlds[0]->ledgers) r += l->refused;
+    return r;
+  }
+  void ret_check(bool got, bool expect, const std::string& msg) {
+    op_has_channel = true;
+    if (!got) op_reported = true;
+    if (faults && (refused_total() != refused_before || (op_doc >= 0 && overflowed_before[(size_t)op_doc]))) return;
+    if (got != expect) fail("return-value", msg);
+  }
+  // path from the root of the target's document to the value the operation modifies
+  void set_hole(const Target& t, const Step* extra = nullptr, bool append = false) {
+    op_doc = t.doc;
+    op_hole.clear();
+    op_hole_whole = false;
+    if (t.form == 0 || (t.form == 1 && !extra && !append)) {
+      op_hole_whole = t.form == 0 || t.path.empty();
+    }
+    if (t.form == 2 || t.form == 4) {
+      uint64_t id = m.handles[(size_t)t.handle].id;
+      if (!path_to_id(m.docs[(size_t)t.doc].root, id, op_hole)) op_hole_whole = true;
+    }
+    for (auto& st_ : t.path) op_hole.push_back(st_);
+    if (extra) op_hole.push_back(*extra);
+    if (append) {
+      // the new element of add(): index = current size of the target (when it is an array)
+      Val* n = resolve(t, false);
+      Step st_{true, n && n->k == Val::Arr ? n->a.size() : 0, ""};
+      op_hole.push_back(st_);
+    }
+    if (op_hole.empty()) op_hole_whole = true;
+  }
+  static bool path_to_id(const Val& v, uint64_t id, std::vector<Step>& out) {
+    if (v.id == id) return true;
+    if (v.k == Val::Arr)
+      for (size_t i = 0; i < v.a.size(); i++) {
+        out.push_back(Step{true, i, ""});
+        if (path_to_id(v.a[i], id, out)) return true;
+        out.pop_back();
+      }
+    if (v.k == Val::Obj)
+      for (auto& kv : v.o) {
+        out.push_back(Step{false, 0, kv.first});
+        if (path_to_id(kv.second, id, out)) return true;
+        out.pop_back();
+      }
+    return false;
+  }
+  // every value outside the path being modified is unchanged
+  static bool eq_outside(const Val& pre, const Val& got, const std::vector<Step>& path, size_t i, std::string* why) {
+    if (i == path.size()) return true;
+    const Step& st_ = path[i];
+    Val nul = Val::null();
+    if (st_.is_index) {
+      if (pre.k == Val::Null) {
+        if (got.k == Val::Null) return true;
+        if (got.k != Val::Arr || got.a.size() > st_.index + 1) return *why = "a null value on the path became something else than a padded array", false;
+        for (size_t j = 0; j < got.a.size() && j < st_.index; j++)
+          if (got.a[j].k != Val::Null) return *why = "padding element is not null", false;
+        return got.a.size() == st_.index + 1 ? eq_outside(nul, got.a[st_.index], path, i + 1, why) : true;
+      }
+      if (pre.k != Val::Arr) return ref::same(pre, got, ref::num_exact, why);
+      if (got.k != Val::Arr) return *why = "an array on the path is no longer an array", false;
+      if (st_.index < pre.a.size()) {
+        if (got.a.size() != pre.a.size()) return *why = "array size changed although the element existed", false;
+      } else if (got.a.size() < pre.a.size() || got.a.size() > st_.index + 1) return *why = "array size outside [old size, index+1]", false;
+      for (size_t j = 0; j < pre.a.size(); j++) {
+        if (j == st_.index) continue;
+        if (!ref::same(pre.a[j], got.a[j], ref::num_exact, why)) return false;
+      }
+      for (size_t j = pre.a.size(); j < got.a.size() && j < st_.index; j++)
+        if (got.a[j].k != Val::Null) return *why = "padding element is not null", false;
+      if (st_.index < got.a.size()) return eq_outside(st_.index < pre.a.size() ? pre.a[st_.index] : nul, got.a[st_.index], path, i + 1, why);
+      return true;
+    }
+    if (pre.k == Val::Null) {
+      if (got.k == Val::Null) return true;
+      if (got.k != Val::Obj || got.o.size() > 1) return *why = "a null value on the path became something else than an object with the new member", false;
+      if (got.o.size() == 1) {
+        if (got.o[0].first != st_.key) return *why = "unexpected member in a freshly created object", false;
+        return eq_outside(nul, got.o[0].second, path, i + 1, why);
+      }
+      return true;
+    }
+    if (pre.k != Val::Obj) return ref::same(pre, got, ref::num_exact, why);
+    if (got.k != Val::Obj) return *why = "an object on the path is no longer an object", false;
+    bool existed = pre.find(st_.key) != nullptr;
+    size_t gi = 0;
+    for (size_t j = 0; j < pre.o.size(); j++, gi++) {
+      if (gi >= got.o.size()) return *why = "a member disappeared", false;
+      if (pre.o[j].first != got.o[gi].first) return *why = "member order/keys changed: " + cs::quote_bytes(pre.o[j].first, 30) + " vs " + cs::quote_bytes(got.o[gi].first, 30), false;
+      if (existed && pre.o[j].first == st_.key && &pre.o[j].second == pre.find(st_.key)) {
+        if (!eq_outside(pre.o[j].second, got.o[gi].second, path, i + 1, why)) return false;
+      } else if (!ref::same(pre.o[j].second, got.o[gi].second, ref::num_exact, why)) return false;
+    }
+    if (gi == got.o.size()) return true;
+    if (existed || got.o.size() != gi + 1 || got.o[gi].first != st_.key) return *why = "unexpected extra member", false;
+    return eq_outside(nul, got.o[gi].second, path, i + 1, why);
+  }
+  void begin_op() {
+    op_reported = false;
+    op_has_channel = false;
+    op_doc = -1;
+    op_hole.clear();
+    op_hole_whole = false;
+    if (!faults) return;
+    pre_roots.clear();
+    overflowed_before.clear();
+    for (size_t d = 0; d < opt.ndocs; d++) {
+      pre_roots.push_back(m.docs[d].root);
+      overflowed_before.push_back(worlds[0]->docs[d]->overflowed());
+    }
+    refused_before = refused_total();
+  }
+  // after the operation under a fault plan: model state, or a reported failure shape
+  void reconcile() {
+    if (!faults) return;
+    World& w = *worlds[0];
+    bool refused = refused_total() != refused_before;
+    if (refused) {
+      fault_ops_with_refusal++;
+      if (op_doc >= 0 && pre_roots[(size_t)op_doc].k != Val::Null) fault_nonempty_before++;
+    }
+    for (size_t d = 0; d < opt.ndocs; d++) {
+      JsonDocument& doc = *w.docs[d];
+      Val got;
+      try {
+        got = lib::observe(doc.as<JsonVariantConst>(), lib::ObserveOpts{true, 600});
+      } catch (lib::ObserveError& e) {
+        fail("malformed-after-failure", "d" + std::to_string(d) + ": " + e.what);
+      }
+      lib::Inspector::Report rep = lib::Inspector::inspect(doc, true, false, false);
+      if (!rep.error.empty()) fail("malformed-after-failure", "d" + std::to_string(d) + ": " + rep.error);
+      if (refused && (int)d == op_doc && !doc.overflowed())
+        fail("failure-not-flagged", "the allocator refused a request during the operation but overflowed() is false on d" + std::to_string(d));
+      std::string why;
+      if (ref::same(m.docs[d].root, got, ref::num_exact, &why)) continue;  // (A) the operation took full effect
+      // (B) failure shape
+      bool may_fail = (int)d == op_doc && (refused || overflowed_before[d]);
+      if (!may_fail)
+        fail("model-mismatch", "d" + std::to_string(d) + " differs from the model although no allocation failed for it: " + why + "\n  model:    " +
+                                   ref::render(m.docs[d].root, 400) + "\n  document: " + ref::render(got, 400));
+      if (!doc.overflowed()) fail("failure-not-flagged", "d" + std::to_string(d) + " lost the effect of the operation but overflowed() is false");
+      if (op_has_channel && !op_reported)
+        fail("failure-not-reported", "the operation did not take effect on d" + std::to_string(d) + " but reported success\n  expected: " +
+                                         ref::render(m.docs[d].root, 400) + "\n  document: " + ref::render(got, 400));
+      if (!op_hole_whole) {
+        std::string why2;
+        if (!eq_outside(pre_roots[d], got, op_hole, 0, &why2))
+          fail("collateral-damage", "a value outside the path being modified changed on d" + std::to_string(d) + ": " + why2 + "\n  before:   " +
+                                        ref::render(pre_roots[d], 400) + "\n  document: " + ref::render(got, 400) + "\n  path: " + render_path(op_hole));
+      }
+      fault_outcomes_b++;
+      // re-synchronise the model with the document (all references are given up)
+      m.docs[d].root = got;
+      m.renumber(m.docs[d].root);
+      m.docs[d].epoch++;
+    }
+  }
+
   // ---------------------------------------------------------------- verification
   void fail(const std::string& kind, const std::string& msg) {
     ctx.current_rendering = log;
@@ -324,9 +498,9 @@ class Runner {
         uint64_t calls_after = 0;
         for (auto& l : w.ledgers) calls_after += l->calls;
         if (calls_after != calls_before) fail("read-calls-allocator", "d" + std::to_string(d) + wn + ": a read-only observation called the allocator");
-        if (doc.overflowed()) fail("overflowed", "d" + std::to_string(d) + wn + ": overflowed() is set although no allocation failed");
+        if (!faults && doc.overflowed()) fail("overflowed", "d" + std::to_string(d) + wn + ": overflowed() is set although no allocation failed");
         if (opt.inspector) {
-          lib::Inspector::Report rep = lib::Inspector::inspect(doc, false, false, true);
+          lib::Inspector::Report rep = lib::Inspector::inspect(doc, faults, false, !faults);
           if (!rep.error.empty()) fail("internal-invariant", "d" + std::to_string(d) + wn + ": " + rep.error);
         }
       }
@@ -376,6 +550,7 @@ class Runner {
         return;
       }
     for (auto& w : worlds) w->watch = nullptr;
+    begin_op();
     static const unsigned w_full[] = {14, 6, 10, 6, 12, 10, 8, 6, 5, 4, 9, 5, 5, 6, 5, 5, 4};
     static const unsigned w_red[] = {10, 5, 8, 4, 8, 8, 8, 6, 0, 4, 6, 3, 0, 3, 0, 3, 0};
     unsigned op = (unsigned)(opt.reduced_alphabet ? s.pick(w_red) : s.pick(w_full));
@@ -400,6 +575,7 @@ class Runner {
       case 15: op_read_only(); break;
       default: op_copy_array(); break;
     }
+    reconcile();
     verify(s.chance(1, 4));
   }
 
@@ -426,6 +602,7 @@ class Runner {
     do_set(t, sc);
   }
   void do_set(const Target& t, const Scalar& sc) {
+    set_hole(t);
     bool assign_op = false;
     note(render_target(t) + (t.form == 0 ? ".set(" : (assign_op ? " = (" : ".set(")) + render_scalar(sc) + ")");
     if (t.form >= 3) st.proxy_ops++;
@@ -439,7 +616,7 @@ class Runner {
       } else {
         on_target(*w, t, [&](auto&& x) { r = lib_set(x, sc, *w); });
       }
-      if (r != expect) fail("return-value", "set() returned " + std::string(r ? "true" : "false") + ", the model expects " + (expect ? "true" : "false"));
+      ret_check(r, expect, "set() returned " + std::string(r ? "true" : "false") + ", the model expects " + (expect ? "true" : "false"));
     }
     if (t.form == 0) {
       m.make_null(m.docs[(size_t)t.doc].root);
@@ -458,6 +635,7 @@ class Runner {
     do_to(t, kind);
   }
   void do_to(const Target& t, int kind) {
+    set_hole(t);
     note(render_target(t) + ".to<" + (kind == 0 ? "JsonVariant" : kind == 1 ? "JsonArray" : "JsonObject") + ">() -> h" + std::to_string(m.handles.size()));
     if (t.form == 0) {
       m.make_null(m.docs[(size_t)t.doc].root);
@@ -481,7 +659,7 @@ class Runner {
       if (t.form == 0) doit(*w->docs[(size_t)t.doc]);
       else on_target(*w, t, doit);
       bool bound = kind == 0 ? !lh.v.isUnbound() : kind == 1 ? !lh.a.isNull() : !lh.o.isNull();
-      if (bound != (n != nullptr)) fail("return-value", std::string("to<>() returned a ") + (bound ? "bound" : "null") + " reference, the model expects the opposite");
+      ret_check(bound, (n != nullptr), std::string("to<>() returned a ") + (bound ? "bound" : "null") + " reference, the model expects the opposite");
       got.push_back(lh);
     }
     if (n) {
@@ -498,6 +676,7 @@ class Runner {
     do_add(t, sc);
   }
   void do_add(const Target& t, const Scalar& sc) {
+    set_hole(t);
     note(render_target(t) + ".add(" + render_scalar(sc) + ")");
     Val* n = resolve(t, true);
     bool expect = false;
@@ -516,7 +695,7 @@ class Runner {
       bool r = false;
       if (t.form == 0) r = lib_add(*w->docs[(size_t)t.doc], sc, *w);
       else on_target(*w, t, [&](auto&& x) { r = lib_add(x, sc, *w); });
-      if (r != expect) fail("return-value", "add() returned " + std::string(r ? "true" : "false") + ", the model expects the opposite");
+      ret_check(r, expect, "add() returned " + std::string(r ? "true" : "false") + ", the model expects the opposite");
     }
     after_insert();
   }
@@ -528,6 +707,7 @@ class Runner {
     do_add_new(t, kind);
   }
   void do_add_new(const Target& t, int kind) {
+    set_hole(t);
     note(render_target(t) + ".add<" + (kind == 0 ? "JsonVariant" : kind == 1 ? "JsonArray" : "JsonObject") + ">() -> h" + std::to_string(m.handles.size()));
     Val* n = resolve(t, true);
     Val* created = nullptr;
@@ -553,7 +733,7 @@ class Runner {
       if (t.form == 0) doit(*w->docs[(size_t)t.doc]);
       else on_target(*w, t, doit);
       bool bound = kind == 0 ? !lh.v.isUnbound() : kind == 1 ? !lh.a.isNull() : !lh.o.isNull();
-      if (bound != (created != nullptr)) fail("return-value", std::string("add<T>() returned a ") + (bound ? "bound" : "null") + " reference, the model expects the opposite");
+      ret_check(bound, (created != nullptr), std::string("add<T>() returned a ") + (bound ? "bound" : "null") + " reference, the model expects the opposite");
       got.push_back(lh);
     }
     if (created) {
@@ -576,6 +756,7 @@ class Runner {
     do_member_set(t, st_, keykind, sc);
   }
   void do_member_set(const Target& t, const Step& st_, int keykind, const Scalar& sc) {
+    set_hole(t, &st_);
     if (st_.key.find('\0') != std::string::npos && (keykind == 1 || keykind == 2)) keykind = 0;
     note(render_target(t) + "[" + cs::quote_bytes(st_.key, 30) + "/k" + std::to_string(keykind) + "] = " + render_scalar(sc));
     Val* n = resolve(t, true);
@@ -625,7 +806,7 @@ class Runner {
       };
       if (t.form == 0) doit(*w->docs[(size_t)t.doc]);
       else on_target(*w, t, doit);
-      if (r != expect) fail("return-value", "member assignment returned " + std::string(r ? "true" : "false") + ", the model expects the opposite");
+      ret_check(r, expect, "member assignment returned " + std::string(r ? "true" : "false") + ", the model expects the opposite");
     }
     after_insert();
   }
@@ -642,6 +823,7 @@ class Runner {
     do_elem_set(t, st_, sc);
   }
   void do_elem_set(const Target& t, const Step& st_, const Scalar& sc) {
+    set_hole(t, &st_);
     note(render_target(t) + "[" + std::to_string(st_.index) + "] = " + render_scalar(sc));
     Val* n = resolve(t, true);
     Val* c = n ? child(*n, st_, true) : nullptr;
@@ -652,7 +834,7 @@ class Runner {
       auto doit = [&](auto&& x) { r = lib_set(x[st_.index], sc, *w); };
       if (t.form == 0) doit(*w->docs[(size_t)t.doc]);
       else on_target(*w, t, doit);
-      if (r != expect) fail("return-value", "element assignment returned " + std::string(r ? "true" : "false") + ", the model expects the opposite");
+      ret_check(r, expect, "element assignment returned " + std::string(r ? "true" : "false") + ", the model expects the opposite");
     }
     after_insert();
   }
@@ -670,6 +852,7 @@ class Runner {
     do_remove(t, by_index, index, key, s.coin());
   }
   void do_remove(const Target& t, bool by_index, size_t index, const std::string& key, bool cstr_key) {
+    set_hole(t);
     Val* n = resolve(t, false);
     note(render_target(t) + ".remove(" + (by_index ? std::to_string(index) : cs::quote_bytes(key, 30)) + ")");
     if (n) {
@@ -734,6 +917,7 @@ class Runner {
     do_clear(t);
   }
   void do_clear(const Target& t) {
+    set_hole(t);
     note(render_target(t) + ".clear()");
     if (t.form == 0) {
       for (auto& w : worlds) w->docs[(size_t)t.doc]->clear();
@@ -758,6 +942,13 @@ class Runner {
     MHandle& h = m.handles[(size_t)hi];
     Val* n = find_id(m.docs[(size_t)h.doc].root, h.id);
     st.handle_ops++;
+    {
+      Target ht;
+      ht.doc = h.doc;
+      ht.form = 2;
+      ht.handle = hi;
+      set_hole(ht);
+    }
     if (h.type == 1) {
       switch (s.below(6)) {
         case 0: {
@@ -767,7 +958,7 @@ class Runner {
           e.id = m.fresh();
           n->a.push_back(e);
           for (auto& w : worlds)
-            if (!lib_add(w->handles[(size_t)hi].a, sc, *w)) fail("return-value", "JsonArray::add returned false");
+            ret_check(lib_add(w->handles[(size_t)hi].a, sc, *w), true, "JsonArray::add returned false");
           after_insert();
           break;
         }
@@ -779,7 +970,7 @@ class Runner {
           Val* c = child(*n, st_, true);
           m.assign(*c, sc.v);
           for (auto& w : worlds)
-            if (!lib_set(w->handles[(size_t)hi].a[idx], sc, *w)) fail("return-value", "JsonArray element assignment returned false");
+            ret_check(lib_set(w->handles[(size_t)hi].a[idx], sc, *w), true, "JsonArray element assignment returned false");
           after_insert();
           break;
         }
@@ -848,7 +1039,7 @@ class Runner {
           m.assign(*c, sc.v);
           for (auto& w : worlds) {
             std::string tmp = key;
-            if (!lib_set(w->handles[(size_t)hi].o[tmp], sc, *w)) fail("return-value", "JsonObject member assignment returned false");
+            ret_check(lib_set(w->handles[(size_t)hi].o[tmp], sc, *w), true, "JsonObject member assignment returned false");
           }
           after_insert();
           break;
@@ -935,6 +1126,7 @@ class Runner {
     do_copy(t, src);
   }
   void do_copy(const Target& t, Source src) {
+    set_hole(t);
     if (t.form == 0 && src.doc == t.doc) {  // doc.set(part of itself): the document is cleared first
       if (!opt.allow_alias_ops) {
         st.alias_excluded++;
@@ -968,7 +1160,7 @@ class Runner {
       bool r = false;
       if (t.form == 0) r = w->docs[(size_t)t.doc]->set(sv);
       else on_target(*w, t, [&](auto&& x) { r = x.set(sv); });
-      if (r != expect) fail("return-value", "set(variant) returned " + std::string(r ? "true" : "false") + ", the model expects the opposite");
+      ret_check(r, expect, "set(variant) returned " + std::string(r ? "true" : "false") + ", the model expects the opposite");
     }
     after_insert();
   }
@@ -980,6 +1172,7 @@ class Runner {
     do_add_copy(t, src);
   }
   void do_add_copy(const Target& t, const Source& src) {
+    set_hole(t);
     if (alias_overlap_add(t, src) && !opt.allow_alias_ops) {
       st.alias_excluded++;
       ctx.known("alias_overlap");
@@ -1007,7 +1200,7 @@ class Runner {
       bool r = false;
       if (t.form == 0) r = w->docs[(size_t)t.doc]->add(sv);
       else on_target(*w, t, [&](auto&& x) { r = x.add(sv); });
-      if (r != expect) fail("return-value", "add(variant) returned " + std::string(r ? "true" : "false") + ", the model expects the opposite");
+      ret_check(r, expect, "add(variant) returned " + std::string(r ? "true" : "false") + ", the model expects the opposite");
     }
     after_insert();
   }
@@ -1025,6 +1218,7 @@ class Runner {
     do_member_copy(t, st_, src);
   }
   void do_member_copy(const Target& t, const Step& st_, const Source& src) {
+    set_hole(t, &st_);
     Target full = t;
     if (full.form == 0) full.form = 3;
     if (full.form == 1) full.form = 3;
@@ -1057,7 +1251,7 @@ class Runner {
       };
       if (t.form == 0) doit(*w->docs[(size_t)t.doc]);
       else on_target(*w, t, doit);
-      if (r != expect) fail("return-value", "member/element copy returned " + std::string(r ? "true" : "false") + ", the model expects the opposite");
+      ret_check(r, expect, "member/element copy returned " + std::string(r ? "true" : "false") + ", the model expects the opposite");
     }
     after_insert();
   }
@@ -1071,6 +1265,8 @@ class Runner {
     do_doc_level(which, a, b);
   }
   void do_doc_level(unsigned which, int a, int b) {
+    op_doc = a;
+    op_hole_whole = true;
     MDoc &ma = m.docs[(size_t)a], &mb = m.docs[(size_t)b];
     if (which != 6 && ma.ledger != mb.ledger) st.cross_ledger_moves++;
     switch (which) {
@@ -1183,6 +1379,7 @@ class Runner {
     do_deserialize(t, v, msgpack);
   }
   void do_deserialize(const Target& t, const Val& v, bool msgpack) {
+    set_hole(t);
     if (t.form == 0 && opt.max_shrinks == 0) {  // the document is shrunk at the end of the call
       ctx.known("shrink_burns_pool_ids");
       return;
@@ -1210,7 +1407,10 @@ class Runner {
       auto doit = [&](auto&& x) { err = msgpack ? deserializeMsgPack(x, bytes.data(), bytes.size()) : deserializeJson(x, bytes.data(), bytes.size()); };
       if (t.form == 0) doit(*w->docs[(size_t)t.doc]);
       else on_target(*w, t, doit);
-      if (n && err != DeserializationError::Ok) fail("deserialize-in-history", std::string("deserialization into an existing destination returned ") + err.c_str());
+      op_has_channel = true;
+      if (err == DeserializationError::NoMemory) op_reported = true;
+      if (n && err != DeserializationError::Ok && !(faults && err == DeserializationError::NoMemory))
+        fail("deserialize-in-history", std::string("deserialization into an existing destination returned ") + err.c_str());
       if (!n && err == DeserializationError::Ok) ctx.label("deserialize-into-unreachable-destination-ok");
     }
     after_insert();
@@ -1248,6 +1448,7 @@ class Runner {
     size_t n0 = (size_t)s.below(5);
     int vals[4] = {(int)s.irange(-5, 5), 70000, -3, 0};
     note("copyArray(int[" + std::to_string(n0) + "], " + render_target(t) + ")");
+    set_hole(t);
     Val* n = t.form == 0 ? &m.docs[(size_t)t.doc].root : (n0 == 0 ? nullptr : resolve(t, true));
     if (t.form == 0) {
       m.make_null(*n);
